@@ -520,6 +520,13 @@ def apply_specs(repo, res, rows, rule='SPEC'):
                 res.add(Finding(rule, fullname, meaning, f.loc,
                                 f'{f.qualname}: {meaning} - no {"condition" if kind == "test" else "call"} with normal form `{want}` '
                                 f'(found: {[_safe_nf_expr(t) for t in pool][:6]})', {}))
+        elif kind == 'rawstmt':
+            # exact (unparse-normalised) statement: for distinctions the normal form deliberately erases (asarray vs asanyarray)
+            want = ast.unparse(ast.parse(text).body[0])
+            ok = any(ast.unparse(s_) == want for s_ in ast.walk(f.node) if isinstance(s_, ast.stmt) and not isinstance(s_, (ast.FunctionDef, ast.ClassDef)))
+            res.oblige(rule, f'{f.qualname}: {meaning}', ok, nontrivial=True, sample={'function': fullname, 'want': want})
+            if not ok:
+                res.add(Finding(rule, fullname, meaning, f.loc, f'{f.qualname}: {meaning} - statement `{want}` not found', {}))
         elif kind == 'nret':
             rets = [n for n in ast.walk(f.node) if isinstance(n, ast.Return)]
             ok = len(rets) == int(text)
@@ -764,4 +771,45 @@ def run_cast_to_data_dtype(repo, res, modules):
             res.add(Finding('CASTDT', f.fullname, norm_stmt_text(st), f'{f.module.relpath}:{nd.lineno}',
                             f'{f.qualname}: `{unparse(nd, 70)}` casts `{subject[:40]}` to the dtype of `{base}`: with an integer image the '
                             f'fractional part is lost, so integer and float images give different results', {}))
+    return n
+
+
+def run_keypair(repo, res, modules):
+    """`A['k'] op= f(B['k'])` next to a sibling statement of the same shape: a statement that mixes two column keys while its
+    sibling uses one key throughout carries the copy-paste signature (the offset of one column computed from another column)."""
+    n = 0
+
+    def keys(st):
+        return [s.slice.value for s in ast.walk(st) if isinstance(s, ast.Subscript) and isinstance(s.slice, ast.Constant)
+                and isinstance(s.slice.value, str)]
+
+    for f in repo.functions.values():
+        if f.module.name not in modules:
+            continue
+        for par in ast.walk(f.node):
+            for fld in ('body', 'orelse', 'finalbody'):
+                blk = getattr(par, fld, None)
+                if not isinstance(blk, list):
+                    continue
+                for i, st in enumerate(blk):
+                    if not isinstance(st, (ast.Assign, ast.AugAssign)):
+                        continue
+                    k1 = keys(st)
+                    if len(k1) < 2:
+                        continue
+                    for j in (i - 1, i + 1):
+                        if not (0 <= j < len(blk)) or not isinstance(blk[j], type(st)):
+                            continue
+                        k2 = keys(blk[j])
+                        if len(k2) != len(k1) or _shape(st) != _shape(blk[j]) or len(set(k2)) != 1:
+                            continue
+                        n += 1
+                        ok = len(set(k1)) == 1
+                        res.oblige('KEYPAIR', f'{f.qualname}: `{norm_stmt_text(st)}` uses one column key throughout like its sibling', ok,
+                                   nontrivial=True)
+                        if not ok and k2[0] in k1:
+                            res.add(Finding('KEYPAIR', f.fullname, norm_stmt_text(st), f'{f.module.relpath}:{st.lineno}',
+                                            f'{f.qualname}: `{norm_stmt_text(st)}` mixes the columns {sorted(set(k1))} while the sibling '
+                                            f'statement `{norm_stmt_text(blk[j])}` uses `{k2[0]}` throughout: copy-paste signature', {}))
+                        break
     return n
